@@ -24,7 +24,10 @@ CLAIMED = {
              "program, exactly-once read counts, the imap in-flight bound, "
              "exception and warning rules, the files of the output fileset and "
              "an empty temp directory. A quarter of the runs aim at one "
-             "tape-drawn completion order of the per-file tasks (all orders of "
+             "tape-drawn completion order of the per-file tasks, explicit "
+             "selections come in any order, the consumer may abandon a "
+             "generator half-way, thread workers that decompress are pre-empted "
+             "inside typhon.files.utils (all orders of "
              "<= 5 tasks in the quick tier, of <= 6 in the thorough tier). A "
              "clean batch is evidence, not proof: schedules are sampled.",
         note="Trusted: the pool model in sim/executors.py (FIFO start, "
@@ -43,8 +46,10 @@ CLAIMED = {
              "Process/Queue/ThreadPool objects whose every interleaving, queue "
              "delivery delay, reader latency and clock jump comes from one "
              "seeded tape (1-4 processes, all bundle modes, memory/fileset/"
-             "search output in pickle or NetCDF4, period cuts incl. exactly on "
-             "file boundaries, one unreadable file; rarely a dense file pair "
+             "search output in pickle or NetCDF4, plain or gzip-compressed "
+             "inputs, period cuts incl. exactly on file boundaries, coverage "
+             "set after a first search, one unreadable file; rarely a dense "
+             "file pair "
              "that takes the pre-binned search, with line pre-emption inside "
              "pool workers). The multiset of reported pairs is compared with a "
              "brute force over all points and every result - yielded or read "
@@ -74,7 +79,10 @@ CLAIMED = {
              "constructor can be interrupted (KeyboardInterrupt) while it reads "
              "the cache file with the at-exit handlers run afterwards, and the "
              "cache file's mtime is a harness-owned coarse clock (two versions "
-             "within one tick carry the same stamp). Crash points are "
+             "within one tick carry the same stamp); a move between file systems "
+             "is modelled as truncate + chunked copy + unlink; the FileSet may "
+             "be dropped before the interpreter's at-exit handlers run. Crash "
+             "points are "
              "enumerated exhaustively per history; histories are sampled.",
         note="Crash = process death (completed syscalls persist, rename atomic, "
              "un-flushed user-space buffer lost); power-failure reordering is "
@@ -96,8 +104,11 @@ CLAIMED = {
              "copy gone, and a body exception must neither create nor change "
              "the target; a failed block does not end the history (later blocks "
              "must still work) and the thorough tier adds random double "
-             "faults. Fault placement is exhaustive per history; histories "
-             "are sampled.",
+             "faults. Every second open/read/write step is also interrupted "
+             "with KeyboardInterrupt; explicit arguments are passed by keyword "
+             "or by position, explicit targets as absolute paths or as bare "
+             "names in the working directory. Fault placement is exhaustive "
+             "per history; histories are sampled.",
         note="Faults are injected only at calls typhon.files.utils issues and "
              "on file objects it hands to the compression libraries; target "
              "atomicity when the compression step itself fails is not "
@@ -152,7 +163,11 @@ CLAIMED = {
              "repeated; a fifth of the runs construct the FileSet for a decoy "
              "layout and re-point it by path assignment, and in a sixth two "
              "simulated caller threads run consecutive queries on the shared "
-             "FileSet with line pre-emption inside typhon.files.fileset. The "
+             "FileSet with line pre-emption inside typhon.files.fileset; another "
+             "FileSet object (copy or fresh) is configured and used in the same "
+             "process; relative templates are followed by a chdir; the trees "
+             "contain left-over entries (.bak/.part) and day directories that "
+             "are no dates. The "
              "simulator decides the storage/listing/history/interleaving part; "
              "the alignment space is sampled.",
         note="Files always satisfy the stated preconditions (directory of the "
@@ -174,7 +189,9 @@ CLAIMED = {
              "absence must be reported as NoFilesError/None. As in C01: the "
              "same filters dict passed twice, invalid filter expressions "
              "repeated, FileSets re-pointed by path assignment, two caller "
-             "threads with line pre-emption.",
+             "threads with line pre-emption, another FileSet object (copy or "
+             "fresh) configured in the same process, relative templates with a "
+             "later chdir, left-over entries and stray directories in the tree.",
         note="Timestamps at name resolution; neighbourhood = finest temporal "
              "directory level (31 d month, 366 d year / non-temporal directory "
              "part), all files without sub directory; ties may go either way; "
@@ -199,7 +216,10 @@ CLAIMED = {
              "pools and, for Collocator(threads >= 2) on the binned path, "
              "line-level pre-emption inside pool workers. Swath dimension names "
              "vary, large swaths reach the pre-binned path, another Collocator "
-             "may work on the same data in between. One fault kind: the "
+             "may work on the same data in between, or at the same time from "
+             "another thread (line pre-emption in both); time stamps may carry "
+             "fractions of a second, max_interval may be a numpy scalar. One "
+             "fault kind: the "
              "k-th tree construction or radius query raises MemoryError - that "
              "call may fail, later calls on the same Collocator must be exact. "
              "Histories and inputs are sampled.",
@@ -226,8 +246,12 @@ CLAIMED = {
              "failing query may raise or must be exact), and in a sixth of the "
              "runs two simulated caller threads share the index with line "
              "pre-emption inside typhon.geographical; in 2 of 5 runs the index "
-             "is queried through a pickle round trip or a deep copy. Sampled, "
-             "not enumerated.",
+             "is queried through a pickle round trip or a deep copy; the random "
+             "stream is stateful and another thread may build an index at the "
+             "same time; queries with thousands of points run inside the kernel "
+             "with the pool seams; radii come as numbers, unit strings in "
+             "several spellings or small numpy scalars. Sampled, not "
+             "enumerated.",
         note="Radii lie between distinct distance values (never within 1 mm of "
              "one) and do not exceed half the circumference for haversine; "
              "exact antipodes under haversine are numerically singular in "
@@ -258,7 +282,9 @@ CLAIMED = {
              "threads start on a completely warm cache with line pre-emption "
              "inside typhon.topography (no download may happen); tiles a "
              "request needs may be put into the cache directory from outside "
-             "right before it. Rectangles and histories are sampled.",
+             "right before it; rectangles may have no area; opening a cached "
+             "tile can fail once with EMFILE. Rectangles and histories are "
+             "sampled.",
         note="Overhangs of exactly one cell +-1e-9 deg are border cases (float "
              "image of an edge on a grid line); faults during extractall are "
              "not injected; in configuration (a) get_tile/download_tile are "
